@@ -484,6 +484,31 @@ def gather_loop(cfg: CFG, sc: Scope, s: Srv):
     raise AnchorError(f'{s.gather.key}: gather loop (get + ledger lookup) not found')
 
 
+def _pop_success(cfg: CFG, popn: Node, sc: Scope, s: Srv):
+    """(start node id, predicate on its out-edges): "the ledger entry of this message was found".
+    `fut = ledger.pop(uid)` / `ledger[uid]`: the normal out-edges of the lookup (an unknown id raises KeyError);
+    `fut = ledger.pop(uid, None)` / `ledger.get(uid)`: the not-None branch of the test of `fut` that follows."""
+    call = _ledger_lookup(popn, sc, s)
+    if isinstance(call, ast.Call) and (len(call.args) >= 2 or method_of(call)[1] == 'get') and isinstance(popn.ast.targets[0], ast.Name):
+        name = popn.ast.targets[0].id
+        for n in cfg.nodes:
+            if n.kind != 'test' or n.id <= popn.id or n.pending != popn.pending:
+                continue
+            t, found_on = n.ast, None
+            flip = False
+            while isinstance(t, ast.UnaryOp) and isinstance(t.op, ast.Not):
+                t, flip = t.operand, not flip
+            if isinstance(t, ast.Compare) and len(t.ops) == 1 and is_name(t.left, name) and is_none(t.comparators[0]) and isinstance(t.ops[0], (ast.Is, ast.IsNot)):
+                found_on = 'F' if isinstance(t.ops[0], ast.Is) else 'T'
+            elif is_name(t, name):
+                found_on = 'T'
+            if found_on is not None:
+                if flip:
+                    found_on = 'F' if found_on == 'T' else 'T'
+                return n.id, (lambda e, lab=found_on: e.kind == lab)
+    return popn.id, (lambda e: e.kind != 'exc')
+
+
 def _notifiers(s: Srv):
     """Nested functions of the gather function that notify the admission condition, and the
     queues they read."""
@@ -555,7 +580,8 @@ def check_slot_return(ck: Checker, rid: str, s: Srv):
     notifiers = _notifiers(s)
     ck.need(notifiers, f'{s.gather.key}: no helper notifying `{s.cond}` found')
     weight = _signal_weight(s, sc, notifiers)
-    res = count_minmax(cfg, popn.id, weight, stop=lambda nid: loop.id not in cfg.nodes[nid].loops and nid != loop.id, start_edges=lambda e: e.kind != 'exc')
+    start, found = _pop_success(cfg, popn, sc, s)
+    res = count_minmax(cfg, start, weight, stop=lambda nid: loop.id not in cfg.nodes[nid].loops and nid != loop.id, start_edges=found)
     bad = []
     nback = 0
     for term, (lo, hi) in res.items():
